@@ -22,13 +22,15 @@ Section BlockProofs.
   Variable lev : nat -> @level K X.
   Variable xf : nat -> @xfer K X.
   Variable tstart : nat -> K.
+  Variable lend : nat -> @endp K.
   Variable P L : nat.                        (* number of steps in the block, number of levels *)
   Notation lvst := (@lvst K X).
   Notation bstate := (@bstate K X).
   Notation np := (nparts imex).
   Notation M l := (lM (lev l)).
-  Notation do_op := (do_op kO kadd kmul ksub keqb imex lev xf tstart).
-  Notation run_ops := (run_ops kO kadd kmul ksub keqb imex lev xf tstart).
+  Notation do_op := (do_op kO kadd kmul ksub keqb imex lev xf tstart lend).
+  Notation run_ops := (run_ops kO kadd kmul ksub keqb imex lev xf tstart lend).
+  Notation uend_of l s := (end_value kO kadd kmul imex lev lend l s).
   Notation restrict_st p l s :=
     (restrict_to kO kadd kmul ksub (tstart p) imex (xf l) (lev l) (lev (S l)) (stau s) (su s, sf s)).
   Notation holds p l tau s := (holds_solution kO kadd kmul ksub (tstart p) imex (lev l) tau s).
@@ -39,6 +41,10 @@ Section BlockProofs.
     xfer_ok kO kI kadd ksub (xf l) (lev l) (lev (S l)) /\
     (* the last coarse node is the last fine node (right end point): last row of Rcoll is a unit vector *)
     (forall m, 1 <= m <= M l -> xRcoll (xf l) (M (S l)) m = if Nat.eqb m (M l) then kI else kO).
+
+  (* with more than one level the end value is the last node on every level (the controller refuses anything else:
+     "For PFASST to work, we assume uend^k = u_M^k"); a single level may use the quadrature end value *)
+  Hypothesis Hcopy : 1 < L -> forall l, l < L -> erin (lend l) && negb (edcu (lend l)) = true.
 
   (* ---------------------------------------------------------------- equivalence of level states *)
   Definition teq (n : nat) (t t' : nat -> option V) : Prop :=
@@ -84,11 +90,13 @@ Section BlockProofs.
     | S l' =>
         let s := Ref p l' in
         let G := restrict_st p l' s in
-        {| su := Gu G; sf := Gf G; stau := Gtau G; suold := Guold G; sfold := Gfold G; svalid := true |}
+        {| su := Gu G; sf := Gf G; stau := Gtau G; suold := Guold G; sfold := Gfold G;
+           suend := Gu G 0; ssent := true; svalid := true |}
     end.
 
   Hypothesis H0 : forall p, p < P -> holds p 0 (stau (R0 p)) (su (R0 p), sf (R0 p)).
-  Hypothesis Hchain : forall p, 0 < p < P -> forall x, su (R0 p) 0 x = su (R0 (p - 1)) (M 0) x.
+  (* the steps are chained by their END VALUES (last node, or the quadrature end value for a single level) *)
+  Hypothesis Hchain : forall p, 0 < p < P -> forall x, su (R0 p) 0 x = uend_of 0 (R0 (p - 1)) x.
 
   Lemma ref_holds p : p < P -> forall l, l < L -> holds p l (stau (Ref p l)) (su (Ref p l), sf (Ref p l)).
   Proof.
@@ -104,16 +112,22 @@ Section BlockProofs.
   Lemma ref_fold p l : forall m q x, sfold (Ref p (S l)) m q x = sf (Ref p (S l)) m q x.
   Proof. intros m q x. cbn [Ref sf sfold]. unfold MultiLevel.restrict_to, Transfer.restrict. cbn [Gf Gfold]. reflexivity. Qed.
 
+  Lemma end_value_copy l (s : lvst) : erin (lend l) && negb (edcu (lend l)) = true -> uend_of l s = su s (M l).
+  Proof. intros H. unfold end_value, end_point. rewrite H. reflexivity. Qed.
+
   (* the chain of end values holds on every level of the reference block *)
-  Lemma ref_chain p : 0 < p < P -> forall l, l < L -> forall x, su (Ref p l) 0 x = su (Ref (p - 1) l) (M l) x.
+  Lemma ref_chain p : 0 < p < P -> forall l, l < L -> forall x, su (Ref p l) 0 x = uend_of l (Ref (p - 1) l) x.
   Proof.
     intros Hp. induction l as [|l IH]; intros Hl x; [apply Hchain; exact Hp|].
+    assert (HL : 1 < L) by lia.
     destruct (Hxf l Hl) as [(Radd & Rsub & Rzero & Rext & _) Hunit].
     destruct (Hlev l ltac:(lia)) as [_ HMl]. destruct (Hlev (S l) Hl) as [_ HMc].
+    rewrite (end_value_copy (S l) _ (Hcopy HL (S l) Hl)).
     cbn [Ref su]. unfold MultiLevel.restrict_to, Transfer.restrict. cbn [Gu fst].
     rewrite Nat.eqb_refl. replace (Nat.eqb (M (S l)) 0) with false by (symmetry; apply Nat.eqb_neq; lia).
     rewrite (rcomb_spec kO kI kadd kmul ksub kopp Rth).
-    rewrite (Rext _ (su (Ref (p - 1) l) (M l))) by (intros y; apply IH; lia).
+    rewrite (Rext _ (su (Ref (p - 1) l) (M l))).
+    2:{ intros y. rewrite (IH ltac:(lia) y). rewrite (end_value_copy l _ (Hcopy HL l ltac:(lia))). reflexivity. }
     (* sum_m Rcoll(Mc, m) Rs(u_m) with a unit last row *)
     rewrite (sumf_ext kO kadd _ (fun m => (if Nat.eqb m (M l) then kI else kO) *! xRs (xf l) (su (Ref (p - 1) l) m) x) 1 (M l))
       by (intros m Hm; rewrite Hunit by lia; reflexivity).
@@ -122,6 +136,30 @@ Section BlockProofs.
     rewrite (sumf_ext kO kadd _ (fun _ => kO) 1 (M l - 1)).
     - rewrite (sumf_zero kO kI kadd kmul ksub kopp Rth). ring.
     - intros m Hm. replace (Nat.eqb m (M l)) with false by (symmetry; apply Nat.eqb_neq; lia). ring.
+  Qed.
+
+  (* the end value respects pointwise equality of level states *)
+  Lemma end_value_cong l (s s' : lvst) : 1 <= M l -> eqv l s s' -> forall x, uend_of l s x = uend_of l s' x.
+  Proof.
+    intros HM (Eu & Ef & Et & _) x. unfold end_value, end_point.
+    destruct (erin (lend l) && negb (edcu (lend l))); [apply Eu; lia|].
+    pose proof (Et (M l) ltac:(lia)) as EM.
+    assert (A : forall (t : option V), (match t with Some tm => vadd kadd
+                (accum kadd (su s 0) 1 (M l) (fun m => vscale kmul (ldt (lev l) *! ew (lend l) m) (ftot kO kadd np (sf s m)))) tm
+              | None => accum kadd (su s 0) 1 (M l) (fun m => vscale kmul (ldt (lev l) *! ew (lend l) m) (ftot kO kadd np (sf s m))) end) x
+             = su s 0 x +! sumf (fun m => ldt (lev l) *! ew (lend l) m *! ftot kO kadd np (sf s m) x) 1 (M l)
+               +! match t with Some tm => tm x | None => kO end).
+    { intros t. destruct t; unfold vadd; rewrite (accum_spec kO kI kadd kmul ksub kopp Rth); unfold vscale; ring. }
+    assert (A' : forall (t : option V), (match t with Some tm => vadd kadd
+                (accum kadd (su s' 0) 1 (M l) (fun m => vscale kmul (ldt (lev l) *! ew (lend l) m) (ftot kO kadd np (sf s' m)))) tm
+              | None => accum kadd (su s' 0) 1 (M l) (fun m => vscale kmul (ldt (lev l) *! ew (lend l) m) (ftot kO kadd np (sf s' m))) end) x
+             = su s' 0 x +! sumf (fun m => ldt (lev l) *! ew (lend l) m *! ftot kO kadd np (sf s' m) x) 1 (M l)
+               +! match t with Some tm => tm x | None => kO end).
+    { intros t. destruct t; unfold vadd; rewrite (accum_spec kO kI kadd kmul ksub kopp Rth); unfold vscale; ring. }
+    rewrite A, A'. rewrite (Eu 0) by lia.
+    f_equal; [f_equal|].
+    - apply sumf_ext. intros m Hm. f_equal. apply (ftot_ext kO kadd). intros q. apply Ef. lia.
+    - destruct (stau s (M l)), (stau s' (M l)); try contradiction; [apply EM | reflexivity].
   Qed.
 
   (* ---------------------------------------------------------------- congruence of restriction *)
@@ -136,10 +174,11 @@ Section BlockProofs.
   Lemma restrict_cong p l (s s' : lvst) :
     S l < L -> eqv l s s' ->
     let G := restrict_st p l s in let G' := restrict_st p l s' in
-    eqv (S l) {| su := Gu G; sf := Gf G; stau := Gtau G; suold := Guold G; sfold := Gfold G; svalid := svalid s |}
-              {| su := Gu G'; sf := Gf G'; stau := Gtau G'; suold := Guold G'; sfold := Gfold G'; svalid := true |}.
+    forall ue1 se1 v1 ue2 se2 v2,
+    eqv (S l) {| su := Gu G; sf := Gf G; stau := Gtau G; suold := Guold G; sfold := Gfold G; suend := ue1; ssent := se1; svalid := v1 |}
+              {| su := Gu G'; sf := Gf G'; stau := Gtau G'; suold := Guold G'; sfold := Gfold G'; suend := ue2; ssent := se2; svalid := v2 |}.
   Proof.
-    intros Hl (Eu & Ef & Et & _ & _) G G'.
+    intros Hl (Eu & Ef & Et & _ & _) G G' ue1 se1 v1 ue2 se2 v2.
     destruct (Hxf l Hl) as [(Radd & Rsub & Rzero & Rext & _) _].
     destruct (Hlev l ltac:(lia)) as [_ HMl].
     destruct (Hlev (S l) Hl) as [(_ & Hextc & _) _].
@@ -183,11 +222,13 @@ Section BlockProofs.
 
   (* ---------------------------------------------------------------- the invariant and its preservation *)
   Definition Inv (B : bstate) : Prop :=
-    forall p l, p < P -> l < L -> svalid (B p l) = true -> eqv l (B p l) (Ref p l).
+    forall p l, p < P -> l < L -> svalid (B p l) = true ->
+      eqv l (B p l) (Ref p l) /\
+      (ssent (B p l) = true -> forall x, suend (B p l) x = uend_of l (Ref p l) x).
 
   (* restrictions / prolongations stay inside the hierarchy *)
   Definition op_in_bounds (o : @op) : Prop :=
-    match o with Sweep _ _ | Recv _ _ => True | Restrict _ l | Prolong _ l => S l < L end.
+    match o with Sweep _ _ | Send _ _ | Recv _ _ => True | Restrict _ l | Prolong _ l => S l < L end.
 
   Lemma eqv_same l s s' : eqv l s s' -> same (lev l) (su s, sf s) (su s', sf s').
   Proof. intros (Eu & Ef & _). split; cbn [fst snd]; assumption. Qed.
@@ -195,7 +236,7 @@ Section BlockProofs.
   Lemma inv_holds B p l : Inv B -> p < P -> l < L -> svalid (B p l) = true ->
     holds p l (stau (B p l)) (su (B p l), sf (B p l)).
   Proof.
-    intros HI Hp Hl Hv. pose proof (HI p l Hp Hl Hv) as E.
+    intros HI Hp Hl Hv. pose proof (HI p l Hp Hl Hv) as [E _].
     destruct (Hlev l Hl) as [(_ & Hext & _) HM].
     apply (holds_eqv p l (stau (Ref p l)) (stau (B p l)) (su (Ref p l), sf (Ref p l)) _ Hext HM (ref_holds p Hp l Hl)).
     - apply eqv_same. exact E.
@@ -203,7 +244,10 @@ Section BlockProofs.
   Qed.
 
   Lemma bupd_inv B p l s :
-    Inv B -> (p < P -> l < L -> svalid s = true -> eqv l s (Ref p l)) -> Inv (bupd B p l s).
+    Inv B ->
+    (p < P -> l < L -> svalid s = true ->
+       eqv l s (Ref p l) /\ (ssent s = true -> forall x, suend s x = uend_of l (Ref p l) x)) ->
+    Inv (bupd B p l s).
   Proof.
     intros HI Hs p' l' Hp' Hl' Hv. unfold bupd in *.
     destruct (Nat.eqb_spec p' p) as [->|Hne]; cbn [andb] in *.
@@ -215,28 +259,36 @@ Section BlockProofs.
 
   Lemma do_op_inv B o : op_in_bounds o -> Inv B -> Inv (do_op B o).
   Proof.
-    intros Hb HI. destruct o as [p l|p l|p l|p l]; cbn [Block.do_op].
+    intros Hb HI. destruct o as [p l|p l|p l|p l|p l]; cbn [Block.do_op].
     - (* Sweep *)
-      apply bupd_inv; [exact HI|]. cbn [svalid su sf stau suold sfold]. intros Hp Hl Hv.
-      pose proof (HI p l Hp Hl Hv) as (Eu & Ef & Et & Eo & Efo).
+      apply bupd_inv; [exact HI|]. cbn [svalid ssent suend su sf stau suold sfold]. intros Hp Hl Hv.
+      pose proof (HI p l Hp Hl Hv) as [(Eu & Ef & Et & Eo & Efo) Hue].
       destruct (Hlev l Hl) as [Hok _].
       pose proof (sweep1_fixed kO kI kadd kmul ksub kopp keqb Rth keqb_true (tstart p) imex (lev l) (stau (B p l))
                     (su (B p l), sf (B p l)) Hok (inv_holds B p l HI Hp Hl Hv)) as [Su Sf]. cbn [fst snd] in Su, Sf.
+      split; [|exact Hue].
       unfold eqv. cbn [su sf stau suold sfold]. repeat split.
       + intros m Hm x. rewrite Su by exact Hm. apply Eu. exact Hm.
       + intros m Hm q x. rewrite Sf by exact Hm. apply Ef. exact Hm.
       + exact Et.
       + exact Eo.
       + exact Efo.
+    - (* Send *)
+      apply bupd_inv; [exact HI|]. cbn [svalid ssent suend su sf stau suold sfold]. intros Hp Hl Hv.
+      pose proof (HI p l Hp Hl Hv) as [E _]. destruct (Hlev l Hl) as [_ HM].
+      split.
+      + destruct E as (Eu & Ef & Et & Eo & Efo). unfold eqv. cbn [su sf stau suold sfold]. repeat split; assumption.
+      + intros _ x. apply (end_value_cong l (B p l) (Ref p l) HM E).
     - (* Recv *)
       destruct p as [|q]; [exact HI|].
-      apply bupd_inv; [exact HI|]. cbn [svalid su sf stau suold sfold]. intros Hp Hl Hv.
-      apply andb_prop in Hv as [Hv1 Hv2].
-      pose proof (HI (S q) l Hp Hl Hv1) as (Eu & Ef & Et & Eo & Efo).
-      pose proof (HI q l ltac:(lia) Hl Hv2) as (Eu' & _).
+      apply bupd_inv; [exact HI|]. cbn [svalid ssent suend su sf stau suold sfold]. intros Hp Hl Hv.
+      apply andb_prop in Hv as [Hv1 Hv2]. apply andb_prop in Hv2 as [Hv2 Hs2].
+      pose proof (HI (S q) l Hp Hl Hv1) as [(Eu & Ef & Et & Eo & Efo) Hue].
+      pose proof (HI q l ltac:(lia) Hl Hv2) as [_ Hsrc].
+      split; [|exact Hue].
       unfold eqv. cbn [su sf stau suold sfold]. repeat split.
       + intros m Hm x. unfold upd. destruct (Nat.eqb_spec m 0) as [->|Hne].
-        * rewrite (Eu' (M l)) by lia. rewrite (ref_chain (S q) ltac:(lia) l Hl x). replace (S q - 1) with q by lia. reflexivity.
+        * rewrite (Hsrc Hs2 x). rewrite (ref_chain (S q) ltac:(lia) l Hl x). replace (S q - 1) with q by lia. reflexivity.
         * apply Eu. exact Hm.
       + intros m Hm r x. unfold upd. replace (Nat.eqb m 0) with false by (symmetry; apply Nat.eqb_neq; lia). apply Ef. exact Hm.
       + exact Et.
@@ -244,15 +296,16 @@ Section BlockProofs.
       + exact Efo.
     - (* Restrict *)
       cbn [op_in_bounds] in Hb.
-      apply bupd_inv; [exact HI|]. cbn [svalid]. intros Hp Hl Hv.
-      pose proof (HI p l Hp ltac:(lia) Hv) as E.
-      exact (restrict_cong p l (B p l) (Ref p l) Hb E).
+      apply bupd_inv; [exact HI|]. cbn [svalid ssent]. intros Hp Hl Hv.
+      pose proof (HI p l Hp ltac:(lia) Hv) as [E _].
+      split; [|intros H; discriminate H].
+      exact (restrict_cong p l (B p l) (Ref p l) Hb E _ _ _ _ _ _).
     - (* Prolong *)
       cbn [op_in_bounds] in Hb.
-      apply bupd_inv; [exact HI|]. cbn [svalid su sf stau suold sfold]. intros Hp Hl Hv.
+      apply bupd_inv; [exact HI|]. cbn [svalid ssent suend su sf stau suold sfold]. intros Hp Hl Hv.
       apply andb_prop in Hv as [Hv1 Hv2].
-      pose proof (HI p l Hp Hl Hv1) as (Eu & Ef & Et & Eo & Efo).
-      pose proof (HI p (S l) Hp Hb Hv2) as (Cu & Cf & _ & Co & Cfo).
+      pose proof (HI p l Hp Hl Hv1) as [(Eu & Ef & Et & Eo & Efo) Hue].
+      pose proof (HI p (S l) Hp Hb Hv2) as [(Cu & Cf & _ & Co & Cfo) _].
       destruct (Hxf l Hb) as [Hx _]. destruct (Hlev l Hl) as [(_ & Hext & _) _].
       pose proof (inv_holds B p l HI Hp Hl Hv1) as (Hcons & _).
       pose (G := {| Gu := su (B p (S l)); Gf := sf (B p (S l)); Gtau := stau (B p (S l));
@@ -264,6 +317,7 @@ Section BlockProofs.
       pose proof (prolong_same kO kI kadd kmul ksub kopp Rth (tstart p) (xf l) (lev l) (lev (S l)) G
                     (su (B p (S l)), sf (B p (S l))) (su (B p l), sf (B p l)) Hx Hext Hcons Hsc Hscf) as [Pu Pf].
       cbn [fst snd G Gtau Guold Gfold] in Pu, Pf.
+      split; [|exact Hue].
       unfold eqv. cbn [su sf stau suold sfold]. repeat split.
       + intros m Hm x. rewrite Pu by exact Hm. apply Eu. exact Hm.
       + intros m Hm q x. rewrite Pf by exact Hm. apply Ef. exact Hm.
@@ -279,23 +333,24 @@ Section BlockProofs.
     apply IH; [exact Hops | apply do_op_inv; assumption].
   Qed.
 
-  (* the block whose fine levels are the given solutions (coarse levels not yet initialised) *)
+  (* the block whose fine levels are the given solutions (coarse levels not yet initialised, nothing sent yet) *)
   Definition init_block : bstate :=
     fun p l => match l with
                | 0 => {| su := su (R0 p); sf := sf (R0 p); stau := stau (R0 p); suold := suold (R0 p); sfold := sfold (R0 p);
-                         svalid := Nat.ltb p P |}
+                         suend := suend (R0 p); ssent := false; svalid := Nat.ltb p P |}
                | S _ => {| su := fun _ _ => kO; sf := fun _ _ _ => kO; stau := fun _ => None; suold := fun _ _ => kO;
-                           sfold := fun _ _ _ => kO; svalid := false |}
+                           sfold := fun _ _ _ => kO; suend := fun _ => kO; ssent := false; svalid := false |}
                end.
 
   Lemma init_inv : Inv init_block.
   Proof.
-    intros p l Hp Hl Hv. destruct l as [|l]; cbn [init_block svalid] in *; [|discriminate Hv].
+    intros p l Hp Hl Hv. destruct l as [|l]; cbn [init_block svalid ssent] in *; [|discriminate Hv].
+    split; [|intros H; discriminate H].
     cbn [Ref]. unfold eqv. cbn [su sf stau suold sfold]. repeat split; try reflexivity.
     intros m Hm. destruct (stau (R0 p) m); [reflexivity|exact I].
   Qed.
 
-  (* MAIN THEOREM: after ANY schedule of sweeps, forward transfers, restrictions and prolongations (inside the hierarchy),
+  (* MAIN THEOREM: after ANY schedule of sweeps, sends, receives, restrictions and prolongations (inside the hierarchy),
      every step's fine level that is still valid holds the same values and right-hand sides as before *)
   Theorem block_fixed_point_any_schedule ops :
     Forall op_in_bounds ops ->
@@ -303,7 +358,7 @@ Section BlockProofs.
     same (lev 0) (su (run_ops ops init_block p 0), sf (run_ops ops init_block p 0)) (su (R0 p), sf (R0 p)).
   Proof.
     intros Hb p Hp HL Hv.
-    pose proof (run_ops_inv ops init_block Hb init_inv p 0 Hp HL Hv) as E.
+    pose proof (run_ops_inv ops init_block Hb init_inv p 0 Hp HL Hv) as [E _].
     apply eqv_same in E. exact E.
   Qed.
 End BlockProofs.
@@ -343,16 +398,21 @@ Section Schedule.
   Qed.
 End Schedule.
 
-(* validity flags evolve independently of the numerical data: they can be computed on booleans alone *)
-Definition fl_op (F : nat -> nat -> bool) (o : op) : nat -> nat -> bool :=
+(* validity / sent flags evolve independently of the numerical data: they can be computed on booleans alone *)
+Definition flst := ((nat -> nat -> bool) * (nat -> nat -> bool))%type.     (* (valid, sent) *)
+Definition fset (F : nat -> nat -> bool) (p l : nat) (b : bool) : nat -> nat -> bool :=
+  fun p' l' => if Nat.eqb p' p && Nat.eqb l' l then b else F p' l'.
+Definition fl_op (FS : flst) (o : op) : flst :=
+  let (F, S_) := FS in
   match o with
-  | Sweep _ _ => F
+  | Sweep _ _ => (F, S_)
+  | Send p l => (F, fset S_ p l (F p l))
   | Recv p l => match p with
-                | 0 => F
-                | S q => fun p' l' => if Nat.eqb p' p && Nat.eqb l' l then F p l && F q l else F p' l'
+                | 0 => (F, S_)
+                | S q => (fset F p l (F p l && (F q l && S_ q l)), S_)
                 end
-  | Restrict p l => fun p' l' => if Nat.eqb p' p && Nat.eqb l' (S l) then F p l else F p' l'
-  | Prolong p l => fun p' l' => if Nat.eqb p' p && Nat.eqb l' l then F p l && F p (S l) else F p' l'
+  | Restrict p l => (fset F p (S l) (F p l), fset S_ p (S l) false)
+  | Prolong p l => (fset F p l (F p l && F p (S l)), S_)
   end.
 
 Section Flags.
@@ -362,135 +422,203 @@ Section Flags.
   Variable lev : nat -> @level K X.
   Variable xf : nat -> @xfer K X.
   Variable tstart : nat -> K.
-  Notation do_op := (do_op kO kadd kmul ksub keqb imex lev xf tstart).
-  Notation run_ops := (run_ops kO kadd kmul ksub keqb imex lev xf tstart).
+  Variable lend : nat -> @endp K.
+  Notation do_op := (do_op kO kadd kmul ksub keqb imex lev xf tstart lend).
+  Notation run_ops := (run_ops kO kadd kmul ksub keqb imex lev xf tstart lend).
 
-  Lemma flags_do_op (B : @bstate K X) o p l :
-    svalid (do_op B o p l) = fl_op (fun p l => svalid (B p l)) o p l.
+  Definition flags_of (B : @bstate K X) (FS : flst) : Prop :=
+    forall p l, svalid (B p l) = fst FS p l /\ ssent (B p l) = snd FS p l.
+
+  Lemma flags_do_op (B : @bstate K X) FS o : flags_of B FS -> flags_of (do_op B o) (fl_op FS o).
   Proof.
-    destruct o as [p0 l0|p0 l0|p0 l0|p0 l0]; cbn [Block.do_op fl_op].
-    - unfold bupd. destruct (Nat.eqb_spec p p0) as [->|]; cbn [andb]; [|reflexivity].
-      destruct (Nat.eqb_spec l l0) as [->|]; reflexivity.
-    - destruct p0 as [|q]; [reflexivity|]. unfold bupd. destruct (Nat.eqb p (S q) && Nat.eqb l l0); reflexivity.
-    - unfold bupd. destruct (Nat.eqb p p0 && Nat.eqb l (S l0)); reflexivity.
-    - unfold bupd. destruct (Nat.eqb p p0 && Nat.eqb l l0); reflexivity.
+    intros HF p l. destruct FS as [F S_]. cbn [fst snd] in *.
+    assert (HFv : forall a b, svalid (B a b) = F a b) by (intros a b; apply (HF a b)).
+    assert (HFs : forall a b, ssent (B a b) = S_ a b) by (intros a b; apply (HF a b)).
+    destruct o as [p0 l0|p0 l0|p0 l0|p0 l0|p0 l0]; cbn [Block.do_op fl_op fst snd].
+    - unfold bupd. destruct (Nat.eqb_spec p p0) as [->|]; cbn [andb]; [|split; [apply HFv|apply HFs]].
+      destruct (Nat.eqb_spec l l0) as [->|]; cbn [svalid ssent]; split; first [apply HFv | apply HFs].
+    - unfold bupd, fset. destruct (Nat.eqb_spec p p0) as [->|]; cbn [andb]; [|split; [apply HFv|apply HFs]].
+      destruct (Nat.eqb_spec l l0) as [->|]; cbn [svalid ssent]; rewrite ?HFv, ?HFs; split; reflexivity.
+    - destruct p0 as [|q]; [split; [apply HFv|apply HFs]|]. cbn [fst snd].
+      unfold bupd, fset. destruct (Nat.eqb_spec p (S q)) as [->|]; cbn [andb]; [|split; [apply HFv|apply HFs]].
+      destruct (Nat.eqb_spec l l0) as [->|]; cbn [svalid ssent]; rewrite ?HFv, ?HFs; split; reflexivity.
+    - unfold bupd, fset. destruct (Nat.eqb_spec p p0) as [->|]; cbn [andb]; [|split; [apply HFv|apply HFs]].
+      destruct (Nat.eqb_spec l (S l0)) as [->|]; cbn [svalid ssent]; rewrite ?HFv, ?HFs; split; reflexivity.
+    - unfold bupd, fset. destruct (Nat.eqb_spec p p0) as [->|]; cbn [andb]; [|split; [apply HFv|apply HFs]].
+      destruct (Nat.eqb_spec l l0) as [->|]; cbn [svalid ssent]; rewrite ?HFv, ?HFs; split; reflexivity.
   Qed.
 
-  Lemma fl_op_ext F G o : (forall p l, F p l = G p l) -> forall p l, fl_op F o p l = fl_op G o p l.
+  Lemma flags_run_ops ops : forall (B : @bstate K X) FS, flags_of B FS -> flags_of (run_ops ops B) (fold_left fl_op ops FS).
   Proof.
-    intros E p l. destruct o as [p0 l0|p0 l0|p0 l0|p0 l0]; cbn [fl_op]; try apply E.
-    - destruct p0; [apply E|]. destruct (Nat.eqb p (S p0) && Nat.eqb l l0); rewrite ?E; reflexivity.
-    - destruct (Nat.eqb p p0 && Nat.eqb l (S l0)); rewrite ?E; reflexivity.
-    - destruct (Nat.eqb p p0 && Nat.eqb l l0); rewrite ?E; reflexivity.
-  Qed.
-
-  Lemma flags_run_ops ops : forall (B : @bstate K X) F, (forall p l, svalid (B p l) = F p l) ->
-    forall p l, svalid (run_ops ops B p l) = fold_left fl_op ops F p l.
-  Proof.
-    induction ops as [|o ops IH]; intros B F E p l; cbn [Block.run_ops fold_left]; [apply E|].
-    apply IH. intros p' l'. rewrite flags_do_op. apply fl_op_ext. exact E.
+    induction ops as [|o ops IH]; intros B FS HF; cbn [Block.run_ops fold_left]; [exact HF|].
+    apply IH. apply flags_do_op. exact HF.
   Qed.
 End Flags.
 
 (* ---------------------------------------------------------------- the controller's schedule keeps every entry valid *)
 Section ScheduleValid.
   Variable P : nat.
-  Notation runf ops F := (fold_left fl_op ops F).
-  Definition Vk (k : nat) (F : nat -> nat -> bool) : Prop := forall p l, p < P -> l <= k -> F p l = true.
+  Notation runf ops FS := (fold_left fl_op ops FS).
+  Definition Vk (k : nat) (FS : flst) : Prop := forall p l, p < P -> l <= k -> fst FS p l = true.
 
-  Lemma runf_app a b F : runf (a ++ b) F = runf b (runf a F).
+  Lemma runf_app a b (FS : flst) : runf (a ++ b) FS = runf b (runf a FS).
   Proof. apply fold_left_app. Qed.
 
-  (* operations that never invalidate levels 0..k *)
-  Definition harmless (k : nat) (o : op) : Prop :=
-    match o with Prolong _ l => S l <= k \/ k < l | _ => True end.
-
-  Lemma fl_op_Vk k F o : harmless k o -> Vk k F -> Vk k (fl_op F o).
+  Lemma fset_same F p l b : fset F p l b p l = b.
+  Proof. unfold fset. rewrite !Nat.eqb_refl. reflexivity. Qed.
+  Lemma fset_other F p l b p' l' : (p' <> p \/ l' <> l) -> fset F p l b p' l' = F p' l'.
   Proof.
-    intros Hh HV p l Hp Hl. destruct o as [p0 l0|p0 l0|p0 l0|p0 l0]; cbn [fl_op harmless] in *.
-    - apply HV; assumption.
-    - destruct p0 as [|q]; [apply HV; assumption|].
-      destruct (Nat.eqb_spec p (S q)) as [->|]; cbn [andb]; [|apply HV; assumption].
-      destruct (Nat.eqb_spec l l0) as [->|]; [|apply HV; assumption].
-      rewrite (HV (S q) l0 Hp Hl), (HV q l0 ltac:(lia) Hl). reflexivity.
-    - destruct (Nat.eqb_spec p p0) as [->|]; cbn [andb]; [|apply HV; assumption].
-      destruct (Nat.eqb_spec l (S l0)) as [->|]; [|apply HV; assumption].
-      apply HV; [assumption | lia].
-    - destruct (Nat.eqb_spec p p0) as [->|]; cbn [andb]; [|apply HV; assumption].
-      destruct (Nat.eqb_spec l l0) as [->|]; [|apply HV; assumption].
-      destruct Hh as [Hh|Hh]; [|lia].
-      rewrite (HV p0 l0 Hp Hl), (HV p0 (S l0) Hp Hh). reflexivity.
+    intros H. unfold fset. destruct (Nat.eqb_spec p' p) as [->|]; cbn [andb]; [|reflexivity].
+    destruct (Nat.eqb_spec l' l) as [->|]; [destruct H; congruence | reflexivity].
   Qed.
 
-  Lemma runf_Vk k ops : Forall (harmless k) ops -> forall F, Vk k F -> Vk k (runf ops F).
+  (* a loop over the steps 0..P-1 whose body keeps levels 0..k valid, provided the earlier steps have sent on level l,
+     and leaves the current step sent on level l *)
+  Lemma loop_steps k l (body : nat -> list op) :
+    (forall j FS, j < P -> Vk k FS -> (forall q, q < j -> snd FS q l = true) ->
+       Vk k (runf (body j) FS) /\ (forall q, q <= j -> q < P -> snd (runf (body j) FS) q l = true)) ->
+    forall FS, Vk k FS -> Vk k (runf (for_steps P body) FS) /\ (forall q, q < P -> snd (runf (for_steps P body) FS) q l = true).
   Proof.
-    induction ops as [|o ops IH]; intros Hh F HV; cbn [fold_left]; [exact HV|].
-    inversion Hh as [|? ? Ho Hops]; subst. apply IH; [exact Hops | apply fl_op_Vk; assumption].
+    intros Hbody FS HV. unfold for_steps.
+    assert (G : forall n j FS', j + n = P -> Vk k FS' -> (forall q, q < j -> snd FS' q l = true) ->
+                Vk k (runf (flat_map body (seq j n)) FS') /\ (forall q, q < P -> snd (runf (flat_map body (seq j n)) FS') q l = true)).
+    { induction n as [|n IH]; intros j FS' Hj HV' Hs; cbn [seq flat_map fold_left].
+      - split; [exact HV'|]. intros q Hq. apply Hs. lia.
+      - rewrite runf_app. destruct (Hbody j FS' ltac:(lia) HV' Hs) as [HV2 Hs2].
+        apply IH; [lia | exact HV2 |]. intros q Hq. apply Hs2; lia. }
+    apply (G P 0 FS); [lia | exact HV | intros q Hq; lia].
   Qed.
 
-  Lemma for_steps_harmless k n f : (forall p, Forall (harmless k) (f p)) -> Forall (harmless k) (for_steps n f).
-  Proof. intros H. unfold for_steps. apply Forall_flat_map. apply Forall_forall. intros p _. apply H. Qed.
-  Lemma repeat_harmless k n ops : Forall (harmless k) ops -> Forall (harmless k) (repeat_ops n ops).
-  Proof. intros H. induction n as [|n IH]; cbn [repeat_ops]; [constructor | apply Forall_app; split; assumption]. Qed.
-  Lemma comm_sweep_harmless k n l : Forall (harmless k) (comm_all n l ++ sweep_all n l).
-  Proof. apply Forall_app; split; apply for_steps_harmless; intros p; repeat constructor. Qed.
+  (* send + recv on level l for every step *)
+  Lemma comm_all_Vk k l : l <= k -> forall FS, Vk k FS -> Vk k (runf (comm_all P l) FS).
+  Proof.
+    intros Hl FS HV. apply (loop_steps k l (fun p => [Send p l; Recv p l])); [|exact HV].
+    intros j [F S_] Hj HVj Hsent. cbn [fold_left fl_op].
+    assert (HF : forall p l', p < P -> l' <= k -> F p l' = true) by exact HVj.
+    assert (HS : forall q, q < j -> S_ q l = true) by exact Hsent.
+    assert (Hvj : F j l = true) by (apply HF; assumption).
+    destruct j as [|q]; cbn [fold_left fl_op fst snd].
+    - split; [exact HVj|]. intros q Hq _. assert (q = 0) by lia. subst q. rewrite fset_same. exact Hvj.
+    - split.
+      + intros p l' Hp Hl'. cbn [fst]. unfold fset at 1.
+        destruct (Nat.eqb_spec p (S q)) as [->|]; cbn [andb]; [|apply HF; assumption].
+        destruct (Nat.eqb_spec l' l) as [->|]; [|apply HF; assumption].
+        rewrite Hvj. cbn [andb]. rewrite (HF q l ltac:(lia) Hl). cbn [andb].
+        rewrite fset_other by (left; lia). apply HS. lia.
+      + intros r Hr _. cbn [snd]. destruct (Nat.eq_dec r (S q)) as [->|Hne].
+        * rewrite fset_same. exact Hvj.
+        * rewrite fset_other by (left; exact Hne). apply HS. lia.
+  Qed.
+
+  (* recv + sweep + send on level l for every step (Gauss-Seidel) *)
+  Lemma coarse_loop_Vk k l : l <= k -> forall FS, Vk k FS -> Vk k (runf (for_steps P (fun p => [Recv p l; Sweep p l; Send p l])) FS).
+  Proof.
+    intros Hl FS HV. apply (loop_steps k l (fun p => [Recv p l; Sweep p l; Send p l])); [|exact HV].
+    intros j [F S_] Hj HVj Hsent. cbn [fold_left fl_op].
+    assert (HF : forall p l', p < P -> l' <= k -> F p l' = true) by exact HVj.
+    assert (HS : forall q, q < j -> S_ q l = true) by exact Hsent.
+    assert (Hvj : F j l = true) by (apply HF; assumption).
+    destruct j as [|q]; cbn [fold_left fl_op fst snd].
+    - split; [exact HVj|]. intros q Hq _. assert (q = 0) by lia. subst q. rewrite fset_same. exact Hvj.
+    - assert (Hnew : fset F (S q) l (F (S q) l && (F q l && S_ q l)) (S q) l = true).
+      { rewrite fset_same, Hvj, (HF q l ltac:(lia) Hl), (HS q ltac:(lia)). reflexivity. }
+      split.
+      + intros p l' Hp Hl'. cbn [fst].
+        destruct (Nat.eq_dec p (S q)) as [->|Hne].
+        * destruct (Nat.eq_dec l' l) as [->|Hne2]; [exact Hnew | rewrite fset_other by (right; exact Hne2); apply HF; assumption].
+        * rewrite fset_other by (left; exact Hne). apply HF; assumption.
+      + intros r Hr _. cbn [snd]. destruct (Nat.eq_dec r (S q)) as [->|Hne].
+        * rewrite fset_same. exact Hnew.
+        * rewrite fset_other by (left; exact Hne). apply HS. lia.
+  Qed.
+
+  Lemma sweep_all_Vk k l FS : Vk k FS -> Vk k (runf (sweep_all P l) FS).
+  Proof.
+    intros HV. unfold sweep_all, for_steps. generalize (seq 0 P). intros ps. revert FS HV.
+    induction ps as [|p ps IH]; intros [F S_] HV; cbn [flat_map fold_left app]; [exact HV | apply IH; exact HV].
+  Qed.
+
+  Lemma repeat_comm_sweep_Vk k l n : l <= k -> forall FS, Vk k FS -> Vk k (runf (repeat_ops n (comm_all P l ++ sweep_all P l)) FS).
+  Proof.
+    intros Hl. induction n as [|n IH]; intros FS HV; cbn [repeat_ops fold_left]; [exact HV|].
+    rewrite runf_app, runf_app. apply IH. apply sweep_all_Vk. apply comm_all_Vk; assumption.
+  Qed.
 
   (* restricting every step from level k makes level k+1 valid *)
-  Lemma restrict_all_Vk k : forall F, Vk k F -> Vk (S k) (runf (for_steps P (fun p => [Restrict p k])) F).
+  Lemma restrict_all_Vk k : forall FS, Vk k FS -> Vk (S k) (runf (for_steps P (fun p => [Restrict p k])) FS).
   Proof.
-    intros F HV.
-    assert (G : forall n F', Vk k F' -> (forall p, p < P -> P - n <= p -> F' p (S k) = true \/ True) ->
-                forall j, j + n = P ->
-                (forall p, p < j -> F' p (S k) = true) ->
-                Vk k (runf (flat_map (fun p => [Restrict p k]) (seq j n)) F') /\
-                (forall p, p < P -> runf (flat_map (fun p => [Restrict p k]) (seq j n)) F' p (S k) = true)).
-    { induction n as [|n IH]; intros F' HV' _ j Hj Hdone; cbn [seq flat_map fold_left app].
+    intros FS HV. unfold for_steps.
+    assert (G : forall n j FS', j + n = P -> Vk k FS' -> (forall p, p < j -> fst FS' p (S k) = true) ->
+                Vk k (runf (flat_map (fun p => [Restrict p k]) (seq j n)) FS') /\
+                (forall p, p < P -> fst (runf (flat_map (fun p => [Restrict p k]) (seq j n)) FS') p (S k) = true)).
+    { induction n as [|n IH]; intros j [F S_] Hj HV' Hdone; cbn [seq flat_map fold_left app].
       - split; [exact HV'|]. intros p Hp. apply Hdone. lia.
-      - apply (IH (fl_op F' (Restrict j k))).
-        + apply fl_op_Vk; [exact I | exact HV'].
-        + intros; right; exact I.
-        + lia.
-        + intros p Hp. cbn [fl_op]. destruct (Nat.eqb_spec p j) as [->|Hne]; cbn [andb].
-          * rewrite Nat.eqb_refl. apply HV'; lia.
-          * apply Hdone. lia. }
-    destruct (G P F HV (fun _ _ _ => or_intror I) 0 ltac:(lia) ltac:(intros; lia)) as [HVk Hnew].
+      - assert (HF : forall q l', q < P -> l' <= k -> F q l' = true) by exact HV'.
+        assert (HD : forall q, q < j -> F q (S k) = true) by exact Hdone.
+        cbn [fl_op]. apply IH; [lia | |].
+        + intros p l Hp Hl. cbn [fst]. rewrite fset_other by (right; lia). apply HF; assumption.
+        + intros p Hp. cbn [fst]. destruct (Nat.eq_dec p j) as [->|Hne].
+          * rewrite fset_same. apply HF; lia.
+          * rewrite fset_other by (left; exact Hne). apply HD. lia. }
+    destruct (G P 0 FS ltac:(lia) HV ltac:(intros; lia)) as [HVk Hnew].
     intros p l Hp Hl. destruct (Nat.eq_dec l (S k)) as [->|Hne]; [apply Hnew; exact Hp | apply HVk; [exact Hp | lia]].
   Qed.
 
-  (* it_down after level 0 has been restricted: levels a .. a+n-1 are swept and restricted in turn *)
-  Lemma down_levels_Vk nsw : forall n a F, Vk a F ->
-    Vk (a + n) (runf (flat_map (fun l => repeat_ops (nsw l) (comm_all P l ++ sweep_all P l)
-                                         ++ for_steps P (fun p => [Restrict p l])) (seq a n)) F).
+  (* prolongation to level l from level l+1 <= k *)
+  Lemma prolong_all_Vk k l : S l <= k -> forall FS, Vk k FS -> Vk k (runf (for_steps P (fun p => [Prolong p l])) FS).
   Proof.
-    induction n as [|n IH]; intros a F HV; cbn [seq flat_map fold_left].
-    - rewrite Nat.add_0_r. exact HV.
-    - rewrite runf_app, runf_app. replace (a + S n) with (S a + n) by lia. apply IH.
-      apply restrict_all_Vk. apply runf_Vk; [apply repeat_harmless, comm_sweep_harmless | exact HV].
+    intros Hl FS HV. unfold for_steps. generalize (seq 0 P). intros ps. revert FS HV.
+    induction ps as [|p ps IH]; intros [F S_] HV; cbn [flat_map fold_left app]; [exact HV|].
+    assert (HF : forall q l', q < P -> l' <= k -> F q l' = true) by exact HV.
+    apply IH. cbn [fl_op]. intros p' l' Hp' Hl'. cbn [fst].
+    destruct (Nat.eq_dec p' p) as [->|Hne].
+    - destruct (Nat.eq_dec l' l) as [->|Hne2].
+      + rewrite fset_same. rewrite (HF p l Hp' ltac:(lia)), (HF p (S l) Hp' Hl). reflexivity.
+      + rewrite fset_other by (right; exact Hne2). apply HF; assumption.
+    - rewrite fset_other by (left; exact Hne). apply HF; assumption.
   Qed.
 
-  Theorem pfasst_iteration_valid L nsw jacobi F :
-    Vk 0 F -> Vk (L - 1) (runf (pfasst_iteration P L nsw jacobi) F).
+  (* it_down after level 0 has been restricted: levels a .. a+n-1 are swept and restricted in turn *)
+  Lemma down_levels_Vk nsw : forall n a FS, Vk a FS ->
+    Vk (a + n) (runf (flat_map (fun l => repeat_ops (nsw l) (comm_all P l ++ sweep_all P l)
+                                         ++ for_steps P (fun p => [Restrict p l])) (seq a n)) FS).
+  Proof.
+    induction n as [|n IH]; intros a FS HV; cbn [seq flat_map fold_left].
+    - rewrite Nat.add_0_r. exact HV.
+    - rewrite runf_app, runf_app. replace (a + S n) with (S a + n) by lia. apply IH.
+      apply restrict_all_Vk. apply repeat_comm_sweep_Vk; [lia | exact HV].
+  Qed.
+
+  Lemma up_levels_Vk k nsw : forall ls FS, (forall l, In l ls -> 1 <= l <= k) -> Vk k FS ->
+    Vk k (runf (flat_map (fun l => for_steps P (fun p => [Prolong p (l - 1)])
+                                   ++ (if Nat.ltb 0 (l - 1) then repeat_ops (nsw (l - 1)) (comm_all P (l - 1) ++ sweep_all P (l - 1)) else []))
+                         ls) FS).
+  Proof.
+    induction ls as [|l ls IH]; intros FS Hls HV; cbn [flat_map fold_left]; [exact HV|].
+    rewrite runf_app, runf_app. apply IH; [intros l' Hl'; apply Hls; right; exact Hl'|].
+    pose proof (Hls l (or_introl eq_refl)) as Hl.
+    assert (H1 : Vk k (runf (for_steps P (fun p => [Prolong p (l - 1)])) FS)) by (apply prolong_all_Vk; [lia | exact HV]).
+    destruct (Nat.ltb 0 (l - 1)); [apply repeat_comm_sweep_Vk; [lia | exact H1] | exact H1].
+  Qed.
+
+  Theorem pfasst_iteration_valid L nsw jacobi FS :
+    Vk 0 FS -> Vk (L - 1) (runf (pfasst_iteration P L nsw jacobi) FS).
   Proof.
     intros HV. unfold pfasst_iteration, iteration_body. rewrite runf_app.
-    assert (H1 : Vk 0 (runf (it_check_ops P) F)).
-    { apply runf_Vk; [|exact HV]. apply for_steps_harmless; intros p; repeat constructor. }
+    assert (H1 : Vk 0 (runf (it_check_ops P) FS)) by (apply comm_all_Vk; [lia | exact HV]).
     destruct (Nat.ltb_spec 1 L) as [HL|HL].
     - rewrite !runf_app.
-      (* it_down *)
-      assert (H2 : Vk (L - 1) (runf (it_down_ops P L nsw) (runf (it_check_ops P) F))).
+      assert (H2 : Vk (L - 1) (runf (it_down_ops P L nsw) (runf (it_check_ops P) FS))).
       { unfold it_down_ops. rewrite runf_app. replace (L - 1) with (1 + (L - 2)) by lia.
         apply down_levels_Vk. apply restrict_all_Vk. exact H1. }
-      (* it_coarse, it_up, it_fine never invalidate levels 0..L-1 *)
-      apply runf_Vk; [apply repeat_harmless, comm_sweep_harmless|].
-      apply runf_Vk.
-      { unfold it_up_ops. apply Forall_flat_map. apply Forall_forall. intros l Hl. apply in_rev, in_seq in Hl.
-        apply Forall_app; split.
-        - apply for_steps_harmless; intros p. constructor; [|constructor]. cbn [harmless]. left. lia.
-        - destruct (Nat.ltb 0 (l - 1)); [apply repeat_harmless, comm_sweep_harmless | constructor]. }
-      apply runf_Vk; [apply for_steps_harmless; intros p; repeat constructor | exact H2].
+      assert (H3 : Vk (L - 1) (runf (it_coarse_ops P L) (runf (it_down_ops P L nsw) (runf (it_check_ops P) FS))))
+        by (apply coarse_loop_Vk; [lia | exact H2]).
+      unfold it_fine_ops. apply repeat_comm_sweep_Vk; [lia|].
+      unfold it_up_ops. apply up_levels_Vk; [|exact H3].
+      intros l Hl. apply in_rev, in_seq in Hl. lia.
     - replace (L - 1) with 0 by lia.
       destruct jacobi.
-      + apply runf_Vk; [apply repeat_harmless, comm_sweep_harmless | exact H1].
-      + apply runf_Vk; [apply for_steps_harmless; intros p; repeat constructor | exact H1].
+      + unfold it_fine_ops. apply repeat_comm_sweep_Vk; [lia | exact H1].
+      + unfold it_coarse_ops. replace (1 - 1) with 0 by lia. apply coarse_loop_Vk; [lia | exact H1].
   Qed.
 End ScheduleValid.
